@@ -93,18 +93,18 @@ def conc_stage(rep, work, vh, tier, seed, replay_sc=None):
     """A query while the recorder ends a run and begins the next: HistoryConc.tla checked exhaustively, its behaviours
     replayed through the gates of the real jsondb, every gate passage validated by HistoryConcTrace.tla."""
     q = tier == "quick"
-    states, transitions, runs = rc.model_check(work, "HistoryConc", ["MC_C06_conc_relist_n1.cfg", "MC_C06_conc_relist_n2.cfg"], workers=2)
+    states, transitions, runs = rc.model_check(work, "HistoryConc", ["MC_C06_conc_relist_n1.cfg", "MC_C06_conc_relist_n2.cfg", "MC_C06_conc_relist_find.cfg"], workers=2)
     scs = []
     if replay_sc:
         scs = [replay_sc]
     else:
         for k, steps in enumerate(CONC_LEADS):
-            for qk, n in [("today", 1), ("recent", 1), ("recent", 2)]:
+            for qk, n in [("today", 1), ("recent", 1), ("recent", 2), ("find", 1)]:
                 scs.append({"scen": 800000 + len(scs), "src": "lead", "query": qk, "n": n, "steps": [{"a": a, "r": ""} for a in steps]})
-        for n in (1, 2):
-            d = os.path.join(work, "concsim%d" % n)
+        for n in (1, 2, "find"):
+            d = os.path.join(work, "concsim%s" % n)
             os.makedirs(d)
-            r = vp.tlc(d, "MCHistoryConc", "MC_C06_conc_sim_n%d.cfg" % n, workers=1, timeout=900,
+            r = vp.tlc(d, "MCHistoryConc", "MC_C06_conc_sim_%s.cfg" % ("find" if n == "find" else "n%d" % n), workers=1, timeout=900,
                        simulate="num=%d" % (300 if q else 3000), extra=["-depth", "40", "-seed", str(seed)])
             seen = set()
             for obj in vp.parse_prints(r["out"], "BEHAVIOUR"):
@@ -112,8 +112,8 @@ def conc_stage(rep, work, vh, tier, seed, replay_sc=None):
                 if key in seen:
                     continue
                 seen.add(key)
-                for qk in (["today", "recent"] if n == 1 else ["recent"]):
-                    scs.append({"scen": 810000 + len(scs), "src": "model", "query": qk, "n": n, "steps": obj["steps"]})
+                for qk in (["today", "recent"] if n == 1 else ["find"] if n == "find" else ["recent"]):
+                    scs.append({"scen": 810000 + len(scs), "src": "model", "query": qk, "n": 1 if n == "find" else n, "steps": obj["steps"]})
             shutil.rmtree(d, ignore_errors=True)
     scen_path = os.path.join(work, "conc.jsonl")
     with open(scen_path, "w") as f:
@@ -256,7 +256,7 @@ def run(prop, tier, seed, replay=None):
             runs += kstage["runs"]
             events += kstage["events"]
             rep.cov["conc_stage"] = {"schedules_replayed": kstage["scenarios"], "gate_events_validated": kstage["events"], "relistings_seen": kstage["relists"],
-                                     "rule": "HistoryConc.tla (a latest-status / recent-history query = listing + one visit per file, against the recorder's compaction "
+                                     "rule": "HistoryConc.tla (a latest-status / recent-history query or a lookup by request id = listing + one visit per file, against the recorder's compaction "
                                              "create / write / unlink and the opening of the next run) checked exhaustively; its simulated behaviours and three fixed "
                                              "schedules replayed through the verif gates of the real jsondb; HistoryConcTrace.tla matches every gate passage and judges the "
                                              "returned answer: it must be one the store would have given at some moment while the query ran",
